@@ -304,6 +304,23 @@ impl Phase for Pairs {
                 r.pick(&["\"str\"", "4", "2.5", "true", "(1, 2.5, \"x\")", "()", "x = 3", "1;", "len(\"abc\")", "1/0", "nosuch(1)", "u", "5 + 1.0", "\"a\" + \"b\"", "(1,2) == (1,2)", "!true", "x0", "x1 = x0"])
                     .to_string()
             },
+            9 if r.chance(1, 2) => {
+                // numeric-looking strings: optional blanks and sign around a literal (where fast paths like to hide)
+                let body = match r.below(8) {
+                    0 => format!("{}", r.int_bitlen().unsigned_abs()),
+                    1 => "9223372036854775808".to_string(),
+                    2 => "9223372036854775807".to_string(),
+                    3 => format!("0x{:x}", r.next() >> r.below(64)),
+                    4 => format!("{:?}", f64::from_bits(r.next() & 0x7fff_ffff_ffff_ffff)),
+                    5 => format!("{}", r.below(1000)),
+                    6 => "1_000".to_string(),
+                    _ => format!("{}.{}", r.below(100), r.below(100)),
+                };
+                let sign = *r.pick(&["", "", "-", "+", "- ", "--", "!", "+ "]);
+                let pre = *r.pick(&["", "", " ", "\t", "\n"]);
+                let post = *r.pick(&["", "", " ", "\n", ";", " // c"]);
+                format!("{}{}{}{}", pre, sign, body, post)
+            },
             _ => hostile_string(r, 24),
         };
         let model = random_model(r);
